@@ -301,21 +301,35 @@ class MHLGenerationCreationSession:
                 history.latest_ignore_patterns(), self.ignore_spec.get_pattern_list()
             )
 
-            history.write_new_generation(new_hash_list)
-            relative_generation_path = self.root_history.get_relative_file_path(new_hash_list.file_path)
-            logger.verbose(f"Created new generation {relative_generation_path}")
-            if history.parent_history is not None:
-                referenced_hash_lists[history.parent_history].append(new_hash_list)
-
             try:
+                history.write_new_generation(new_hash_list)
+                relative_generation_path = self.root_history.get_relative_file_path(new_hash_list.file_path)
+                logger.verbose(f"Created new generation {relative_generation_path}")
+                if history.parent_history is not None:
+                    referenced_hash_lists[history.parent_history].append(new_hash_list)
+
                 chain_xml_parser.write_chain(history.chain, new_hash_list)
             except BaseException:
-                # without its chain entry the manifest that was just written is not part of the history: take it away
+                # without its chain entry a manifest that was just written is not part of the history: take it away
                 # again (and the ascmhl folder if this was its first generation), otherwise later runs find a
-                # folder without chain file or a generation that the chain does not know
+                # folder without chain file or a generation that the chain does not know.
+                # an interruption can also arrive when the new chain file is in place already: then the generation
+                # is complete and has to stay
+                if new_hash_list.file_path is None or _chain_file_lists(history.chain.file_path, new_hash_list):
+                    raise
                 for cleanup, path in ((os.remove, new_hash_list.file_path), (os.rmdir, history.asc_mhl_path)):
                     try:
                         cleanup(path)
                     except OSError:
                         pass
                 raise
+
+
+def _chain_file_lists(chain_file_path: str, hash_list: MHLHashList) -> bool:
+    """whether the chain file on disk has an entry for the manifest of the hash list"""
+    try:
+        chain = chain_xml_parser.parse(chain_file_path)
+    except Exception:
+        return False
+    file_name = os.path.basename(hash_list.file_path)
+    return any(generation.ascmhl_filename == file_name for generation in chain.generations)
